@@ -967,6 +967,7 @@ Section Main.
     Definition item_ok (var : xvar) (y : value) : Prop :=
       match y with
       | VNone => v_nillable var = true /\ v_default var = DNone      (* <f xsi:nil="true"/> *)
+                 /\ (forall k, v_types var = [TClass k] -> cls_nillable u k = false)
       | _ => match v_tokens_factory var with
              | Some tf => fits_tokens var tf y = true
              | None => fits_item (fits n) var y = true
@@ -1082,7 +1083,10 @@ Section Main.
         destruct x eqn:Ex.
         + assert (Hdn : v_default var = DNone) by (destruct (v_default var); try discriminate Hf; reflexivity).
           destruct (v_nillable var) eqn:Enl.
-          * split; [constructor; [split; [exact Enl|exact Hdn]|constructor]|]. split; [intros _; cbn; lia|].
+          * assert (Hncl : forall k, v_types var = [TClass k] -> cls_nillable u k = false).
+            { intros k Hk. rewrite Hdn in Hf. unfold vtype in Hf. rewrite Hk in Hf. cbn [andb] in Hf.
+              apply negb_true_iff in Hf. exact Hf. }
+            split; [constructor; [split; [exact Enl|split; [exact Hdn|exact Hncl]]|constructor]|]. split; [intros _; cbn; lia|].
             split; [intros pv E; cbn in E; inversion E; reflexivity|discriminate].
           * split; [constructor|]. split; [intros _; cbn; lia|]. split; [intros pv E; cbn in E; discriminate E|].
             intros _. rewrite Hdn. reflexivity.
@@ -1214,13 +1218,12 @@ Section Main.
 
     Lemma build_node_class var k mk attrs ns pos asg wr :
       is_elem_var var -> v_clazz var = Some k -> v_types var = [TClass k] ->
-      u_meta u k = Some mk -> m_nillable mk = false ->
+      u_meta u k = Some mk ->
       Parser.xsi_type_of c attrs ns = ROk None -> assoc XSI_NIL attrs = None ->
       build_node c u (enW asg wr) (v_qname var) var attrs ns pos
       = ROk (Some (NElement (mk_enode mk attrs ns pos false None None [] []))).
     Proof.
-      intros Hv Hcl Hty Hmk Hnil Hxt Hxn. pose proof Hv as [Hw _].
-      pose proof (wf_elem_nonil_class var k Hw Hty) as Hn.
+      intros Hv Hcl Hty Hmk Hxt Hxn. pose proof Hv as [Hw _].
       unfold build_node, v_is_clazz_union. rewrite Hcl, Hty. change (1 <? N.of_nat (length [TClass k])) with false. cbn iota.
       rewrite Hxt. unfold xsi_nil_of. rewrite Hxn. cbn [truthy_str rbind].
       unfold build_element_node, fetch, get_meta. rewrite Hmk. cbn [rbind truthy_str].
@@ -1230,15 +1233,14 @@ Section Main.
     (* xsi:type names a strict subclass of the declared class: its metadata, no derived wrapper *)
     Lemma build_node_derived var kd k attrs ns pos asg wr t mk mkd :
       is_elem_var var -> v_clazz var = Some kd -> v_types var = [TClass kd] ->
-      u_meta u kd = Some mkd -> u_meta u k = Some mk -> m_clazz mk = k -> m_nillable mk = false ->
+      u_meta u kd = Some mkd -> u_meta u k = Some mk -> m_clazz mk = k ->
       t <> [] -> m_target_qname mkd <> Some t -> sub_lookup u kd t = Some k -> c_from_qname c t = None ->
       is_subclass u k kd = true ->
       Parser.xsi_type_of c attrs ns = ROk (Some t) -> assoc XSI_NIL attrs = None ->
       build_node c u (enW asg wr) (v_qname var) var attrs ns pos
       = ROk (Some (NElement (mk_enode mk attrs ns pos false (Some t) None [] []))).
     Proof.
-      intros Hv Hcl Hty Hmkd Hmk Hmc' Hnil Hne Htg Hsl Hfq Hsub Hxt Hxn. pose proof Hv as [Hw _].
-      pose proof (wf_elem_nonil_class var kd Hw Hty) as Hn.
+      intros Hv Hcl Hty Hmkd Hmk Hmc' Hne Htg Hsl Hfq Hsub Hxt Hxn. pose proof Hv as [Hw _].
       unfold build_node, v_is_clazz_union. rewrite Hcl, Hty. change (1 <? N.of_nat (length [TClass kd])) with false. cbn iota.
       rewrite Hxt. unfold xsi_nil_of. rewrite Hxn. cbn [truthy_str rbind].
       unfold build_element_node, fetch, get_meta. rewrite Hmkd. cbn [rbind].
@@ -1339,7 +1341,7 @@ Section Main.
         cbn [app].
         rewrite (run_step cfg c u replay root _ _ _ _
                    (start_child var attrs ns asg wr wo Q objs W _ Hv Hasg Hag
-                      (build_node_class var k mk attrs ns (length objs) asg wr Hv Hcl Hty Hmk G5 Hxt Hxn))).
+                      (build_node_class var k mk attrs ns (length objs) asg wr Hv Hcl Hty Hmk Hxt Hxn))).
         apply (Hrun mk Hmk).
       - (* an instance of a strict subclass, announced by xsi:type *)
         cbn [RoundtripGen.e_item] in Hr.
@@ -1361,7 +1363,7 @@ Section Main.
         cbn [app].
         rewrite (run_step cfg c u replay root _ _ _ _
                    (start_child var attrs ns asg wr wo Q objs W _ Hv Hasg Hag
-                      (build_node_derived var k cl' attrs ns (length objs) asg wr t mk mkd Hv Hcl Hty Hmkd Hmk Hmc' G5
+                      (build_node_derived var k cl' attrs ns (length objs) asg wr t mk mkd Hv Hcl Hty Hmkd Hmk Hmc'
                          Htne Htg Hsl Hfq Hsub Hxt Hxn))).
         apply (Hrun mk Hmk).
     Qed.
@@ -1403,19 +1405,27 @@ Section Main.
     Qed.
 
     (* None in a nillable field: <f xsi:nil="true"/> *)
+    Lemma normalize_blank tl : blank_o tl = true -> normalize_content tl = None.
+    Proof.
+      destruct tl as [s0|]; [|reflexivity]. cbn [blank_o normalize_content]. intros H.
+      unfold py_strip. rewrite (strip_all py_isspace s0 (blank_py s0 H)). reflexivity.
+    Qed.
+
     Lemma xsi_type_not_nil : str_eqb XSI_TYPE XSI_NIL = false.
     Proof. vm_compute. reflexivity. Qed.
 
     Lemma nil_item_run var a asg wr wo Q objs W rest :
       is_elem_var var -> v_nillable var = true -> v_default var = DNone ->
+      (forall k, v_types var = [TClass k] -> cls_nillable u k = false) ->
       (v_factory var = None -> ~ In (v_index var) asg) -> wrap_agrees var wo ->
       reads (ienode var VNone) a ->
       prun (mk_pstate (ctx wo ++ NElement (enW asg wr) :: Q) objs W) (a ++ rest)
       = prun (mk_pstate (ctx wo ++ NElement (enW (asg_after var asg) (wr_after var wo wr)) :: Q)
                         (objs ++ [(Some (v_qname var), VNone)]) W) rest.
     Proof.
-      intros Hv Hnl Hdn Hasg Hag Hr. pose proof Hv as [Hw _].
-      destruct (wf_elem_nil var Hw Hnl) as [t [Ht [Hst [Hcl Htf]]]].
+      intros Hv Hnl Hdn Hncl Hasg Hag Hr. pose proof Hv as [Hw _].
+      assert (Htf : v_tokens_factory var = None)
+        by (destruct (wf_elem_nil var Hw Hnl) as [[t [_ [_ [_ H]]]]|[k [_ [_ H]]]]; exact H).
       assert (He : ienode var VNone = EElem (Bind.split_qname (v_qname var)) [(Bind.split_qname XSI_NIL, [AText EventGen.TRUE_STR])] []).
       { unfold ienode. rewrite Htf. cbn [RoundtripGen.e_item]. unfold RoundtripGen.e_prim, nil_attr_e. rewrite Hnl. reflexivity. }
       rewrite He in Hr. cbn [reads] in Hr.
@@ -1425,6 +1435,26 @@ Section Main.
       rewrite clark_split in Hv2. inversion Hv1; subst v.
       destruct attrs as [|a0 [|? ?]]; try discriminate Hlen. destruct Hv2 as [->|[]].
       rewrite clark_split in Ha. subst a. cbn [app].
+      destruct (wf_elem_nil var Hw Hnl) as [[t [Ht [Hst [Hcl _]]]]|[k [Ht [Hcl _]]]].
+      2:{ (* a class-typed field: the element node answers None (the class is not nillable) *)
+          pose proof (Hncl k Ht) as Hnk.
+          pose proof Hv as [_ Hin0]. assert (Hwk : wfr k) by (apply (Hnest _ var k Hin0 (or_introl eq_refl) Hcl)).
+          destruct (wfr_inv u k Hwk) as [mk [Hmk _]].
+          unfold cls_nillable in Hnk. rewrite Hmk in Hnk.
+          assert (Hb : build_node c u (enW asg wr) (v_qname var) var [(XSI_NIL, EventGen.TRUE_STR)] ns (length objs)
+                       = ROk (Some (NElement (mk_enode mk [(XSI_NIL, EventGen.TRUE_STR)] ns (length objs) false None (Some true) [] [])))).
+          { unfold build_node, v_is_clazz_union. rewrite Hcl, Ht. change (1 <? N.of_nat (length [TClass k])) with false. cbn iota.
+            assert (Ex : Parser.xsi_type_of c [(XSI_NIL, EventGen.TRUE_STR)] ns = ROk None).
+            { unfold Parser.xsi_type_of. cbn [assoc]. rewrite xsi_type_not_nil. reflexivity. }
+            rewrite Ex. cbn [rbind].
+            assert (En : xsi_nil_of [(XSI_NIL, EventGen.TRUE_STR)] = Some true) by (vm_compute; reflexivity).
+            rewrite En. unfold build_element_node, fetch, get_meta. rewrite Hmk. cbn [rbind truthy_str].
+            rewrite Hnl. reflexivity. }
+          rewrite (run_step cfg c u replay root _ _ _ _ (start_child var _ ns asg wr wo Q objs W _ Hv Hasg Hag Hb)).
+          apply run_step. cbn [Parser.step pend st_queue st_objects st_warn].
+          unfold element_bind, xsi_nil_true. cbn [en_xsi_nil en_meta en_derived]. rewrite Hnk. cbn [negb orb rbind].
+          unfold finish_end. cbn [rbind fst snd st_warn]. rewrite app_nil_r.
+          unfold append_tail. rewrite (normalize_blank tail Htl). reflexivity. }
       rewrite (run_step cfg c u replay root _ _ _ _
                  (start_child var _ ns asg wr wo Q objs W _ Hv Hasg Hag
                     (build_node_prim_attrs var [(XSI_NIL, EventGen.TRUE_STR)] ns (length objs) asg wr Hv Hcl
@@ -1445,7 +1475,7 @@ Section Main.
       intros Hv Hok Hasg Hag Hr. pose proof Hv as [Hw Hin].
       assert (Hcase : y = VNone \/ y <> VNone) by (destruct y; [left; reflexivity|right; discriminate..]).
       destruct Hcase as [->|Hyn].
-      { destruct Hok as [Hnl Hdn]. apply (nil_item_run var a asg wr wo Q objs W rest Hv Hnl Hdn Hasg Hag Hr). }
+      { destruct Hok as [Hnl [Hdn Hncl]]. apply (nil_item_run var a asg wr wo Q objs W rest Hv Hnl Hdn Hncl Hasg Hag Hr). }
       apply (item_ok_inv var y Hyn) in Hok. unfold ienode in Hr.
       destruct (wf_elem_inv var Hw) as [_ [_ [[k [Hty [Hcl Htf]]]|[[t [Hty [Hst Hcl]]]|[Hty [Hcl Htf]]]]]].
       3:{ rewrite Htf in *. destruct (fits_item_qname c u ok _ var y Hty Hok) as [q1 [-> [Hokq Hq]]].
@@ -1602,12 +1632,6 @@ Section Main.
     Qed.
 
     (* ---------------------------------------------------------------- the end of the element *)
-    Lemma normalize_blank tl : blank_o tl = true -> normalize_content tl = None.
-    Proof.
-      destruct tl as [s0|]; [|reflexivity]. cbn [blank_o normalize_content]. intros H.
-      unfold py_strip. rewrite (strip_all py_isspace s0 (blank_py s0 H)). reflexivity.
-    Qed.
-
     Lemma skipn_app_len {A} (a b : list A) : skipn (length a) (a ++ b) = b.
     Proof. induction a; [reflexivity|assumption]. Qed.
     Lemma firstn_app_len {A} (a b : list A) : firstn (length a) (a ++ b) = a.
